@@ -488,6 +488,89 @@ func runC18(c *Ctx, r *Run) {
 	r.Require("SYNC-4", 4)
 	r.Require("SYNC-5", 10)
 	r.Require("SYNC-6", 1)
+	// ---- SYNC-7: a pool always has at least one worker: the bound of the loop that starts the workers (and the stored
+	// worker count) is positive on every path - the caller's count under a `count > 0` test, runtime.NumCPU(),
+	// runtime.GOMAXPROCS(0), a positive constant, or max(1, …)
+	r.Rule("SYNC-7", "the number of workers started by NewPool is at least one on every path")
+	if np := c.LookupFunc("pkg/pool", "NewPool"); np != nil {
+		r.Analysed(c.FuncName(np))
+		var positive func(v ssa.Value, at *ssa.BasicBlock, d int) bool
+		positive = func(v ssa.Value, at *ssa.BasicBlock, d int) bool {
+			if d > 6 {
+				return false
+			}
+			v = stripConv(v)
+			if k, ok := constInt(v); ok {
+				return k >= 1
+			}
+			switch x := v.(type) {
+			case *ssa.Call:
+				if isCallToPkgFunc(x, "runtime", "NumCPU") || isCallToPkgFunc(x, "runtime", "GOMAXPROCS") {
+					return true
+				}
+				if bi, ok := x.Call.Value.(*ssa.Builtin); ok && bi.Name() == "max" {
+					for _, a := range x.Call.Args {
+						if positive(a, at, d+1) {
+							return true
+						}
+					}
+				}
+			case *ssa.Phi:
+				for i, e := range x.Edges {
+					pb := x.Block().Preds[i]
+					// the edge itself may be the false edge of `e <= 0`
+					if iff, ok := pb.Instrs[len(pb.Instrs)-1].(*ssa.If); ok {
+						if bo, ok := iff.Cond.(*ssa.BinOp); ok && stripConv(bo.X) == stripConv(e) {
+							if k, isK := constInt(bo.Y); isK {
+								if ((bo.Op == token.LEQ && k == 0) || (bo.Op == token.LSS && k == 1)) && pb.Succs[1] == x.Block() {
+									continue
+								}
+								if ((bo.Op == token.GTR && k == 0) || (bo.Op == token.GEQ && k == 1)) && pb.Succs[0] == x.Block() {
+									continue
+								}
+							}
+						}
+					}
+					if !positive(e, pb, d+1) {
+						return false
+					}
+				}
+				return true
+			case *ssa.Parameter:
+				// established positive on this path: dominated by the edge of `v > 0` / `v >= 1` / !(v <= 0)
+				return dominatedByCmp(at, v, token.GTR, 0) || dominatedByCmp(at, v, token.GEQ, 1) || edgeNegates(at, v)
+			}
+			return false
+		}
+		n := 0
+		allInstrs(np, func(in ssa.Instruction) {
+			if _, isGo := in.(*ssa.Go); !isGo {
+				return
+			}
+			// the loop condition guarding the go statement: i < bound
+			for d := in.Block(); d != nil; d = d.Idom() {
+				iff, ok := d.Instrs[len(d.Instrs)-1].(*ssa.If)
+				if !ok || !blockReaches(in.Block(), d) {
+					continue
+				}
+				bo, ok := iff.Cond.(*ssa.BinOp)
+				if !ok || bo.Op != token.LSS {
+					continue
+				}
+				n++
+				r.Check("SYNC-7", "pkg/pool.NewPool|workers-started >= 1", c.Pos(in.Pos()), positive(bo.Y, d, 0),
+					"the loop that starts the workers runs at least once",
+					"the number of workers started is "+path(bo.Y)+", which is not positive on every path (for instance GOMAXPROCS-1 in a one-processor process): a pool without workers makes every Parallelize and Search block forever")
+				break
+			}
+		})
+		if n == 0 {
+			r.Fail("SYNC-7", "pkg/pool.NewPool|workers-started >= 1", c.Pos(np.Pos()), "the worker start loop is found", "UNDECIDED: no loop starting workers in NewPool")
+		}
+	} else {
+		r.Unresolved("SYNC-7", "pkg/pool.NewPool")
+	}
+	r.Require("SYNC-7", 1)
 }
 
 func isLenOf(v ssa.Value, s ssa.Value) bool {
@@ -1492,4 +1575,30 @@ func (m *poolModel) checkCallers() {
 		}
 	}
 	r.Note("pool call sites analysed: %d", nSites)
+}
+
+// edgeNegates: block b is reached only through the false edge of `v <= 0` / `v < 1` (so v is positive there).
+func edgeNegates(b *ssa.BasicBlock, v ssa.Value) bool {
+	for d := b; d != nil; d = d.Idom() {
+		if len(d.Preds) != 1 {
+			continue
+		}
+		p := d.Preds[0]
+		iff, ok := p.Instrs[len(p.Instrs)-1].(*ssa.If)
+		if !ok {
+			continue
+		}
+		bo, ok := iff.Cond.(*ssa.BinOp)
+		if !ok || stripConv(bo.X) != v {
+			continue
+		}
+		k, isK := constInt(bo.Y)
+		if !isK {
+			continue
+		}
+		if ((bo.Op == token.LEQ && k == 0) || (bo.Op == token.LSS && k == 1)) && p.Succs[1] == d {
+			return true
+		}
+	}
+	return false
 }
